@@ -10,10 +10,10 @@ git -C /repo worktree add -q --detach $W HEAD || exit 9
 trap 'git -C /repo worktree remove --force '$W' >/dev/null 2>&1' EXIT
 cd $W
 if ! git apply --check "$S/patch.diff" 2>/dev/null; then echo "PATCH DOES NOT APPLY: $S"; exit 8; fi
-/venv/bin/python "$S/demo.py" >/dev/null 2>&1; echo "demo on clean tree: exit $?"
+if [ -f "$S/demo.py" ]; then /venv/bin/python "$S/demo.py" >/dev/null 2>&1; echo "demo on clean tree: exit $?"; fi
 git apply "$S/patch.diff"
 T=$(/venv/bin/python -m pytest -q -p no:cacheprovider 2>&1 | tail -1); echo "tests with seed: $T"
-/venv/bin/python "$S/demo.py" >/dev/null 2>&1; echo "demo with seed: exit $?"
+if [ -f "$S/demo.py" ]; then /venv/bin/python "$S/demo.py" >/dev/null 2>&1; echo "demo with seed: exit $?"; fi
 for c in "$@"; do
   out=$(cd /verif && VERIF_REPO=$W ./check $c --tier quick --no-selftest --no-evidence --replay-dir /verif/build/seedreplay/$N 2>&1)
   rc=$?
